@@ -172,6 +172,23 @@ def label_sigs(recipe: dict, prog) -> Dict[str, Tuple[int, int]]:
     return out
 
 
+UNASSEMBLABLE_KINDS = ("syntax", "imm-range", "label", "const-index", "cfg-fall-off-end", "cfg-fall-into-routine")
+
+
+def unassemblable(teal: str, version: int, mode: str = "app"):
+    """first issue of the C04 predicate that makes the text unusable whatever it was meant to compute (bad immediate,
+    undefined label, constant index outside its block, control running off the end / into another routine), or None.
+    Used by the behavioural properties (C01-C03): a program that cannot be assembled does not "compute what the source
+    denotes".  Version/field-availability kinds are left to C04 (its known findings F9/F17-F19 live there)."""
+    from .teal import static
+
+    sure, _unsure, _prog = static.check_program(teal, version, mode)
+    for i in sure:
+        if i.kind in UNASSEMBLABLE_KINDS:
+            return i
+    return None
+
+
 def static_issue(teal: str, version: int, mode: str = "app"):
     """first judging issue of the C04 validity predicate on an emitted text, or None (used by the ABI/router
     properties so that text the assembler cannot accept is never counted as a correct answer)"""
